@@ -31,7 +31,11 @@ fn pick_instr(r: &mut Rng, o: &ProgOpts) -> String {
     for _ in 0..50 {
         let n = if !o.focus.is_empty() && r.chance(3, 5) {
             let f = *r.pick(o.focus);
-            let c: Vec<&String> = o.names.iter().filter(|n| n.starts_with(f)).collect();
+            let c: Vec<&String> = o
+                .names
+                .iter()
+                .filter(|n| if let Some(suf) = f.strip_prefix('*') { n.ends_with(suf) } else { n.starts_with(f) })
+                .collect();
             if c.is_empty() {
                 r.pick(o.names).clone()
             } else {
@@ -60,6 +64,9 @@ pub fn gen_prog_item(r: &mut Rng, depth: u32, o: &ProgOpts) -> Item {
         let n = r.below(6);
         let v: Vec<Item> = (0..n).map(|_| gen_prog_item(r, depth - 1, o)).collect();
         return Item::list(v);
+    }
+    if o.focus.iter().any(|f| *f == "NAME.QUOTE") && r.chance(1, 3) {
+        return Item::name(r.pick(&["a", "b", "x1", "foo"]).to_string());
     }
     match r.below(20) {
         0..=8 => Item::instruction(pick_instr(r, o)),
